@@ -174,10 +174,29 @@ Definition truthy_spec (v : value) : bool :=
   end.
 
 (** ** Operator names (C02): the 35 names are written out in Base/Lits.v *)
-Definition spec_names : list str := spec_name_lits.
+Fixpoint name_lookup (l : list (str * opname)) (k : str) : option opname :=
+  match l with
+  | [] => None
+  | (n, o) :: r => if str_eqb n k then Some o else name_lookup r k
+  end.
+
+Definition name_of (k : str) : option opname := name_lookup op_names k.
 
 Definition is_operation (v : value) : bool :=
   match v with
-  | Obj [(k, _)] => existsb (str_eqb k) spec_names
+  | Obj [(k, _)] => match name_of k with Some _ => true | None => false end
   | _ => false
+  end.
+
+(** ** Documented operand counts (C03) *)
+Definition documented (o : opname) (n : nat) : bool :=
+  match o with
+  | OEq | ONe | OSeq | OSne | ODiv | OMod | OIn | OMap | OFilter | OAll | OSome | ONone | OMissingSome => Nat.eqb n 2
+  | OLt | OLe | OGt | OGe | OSubstr => Nat.eqb n 2 || Nat.eqb n 3
+  | OReduce => Nat.eqb n 3
+  | ONot | ONotNot | OLog => Nat.eqb n 1
+  | OSub => Nat.eqb n 1 || Nat.eqb n 2
+  | OVar => Nat.leb n 2
+  | OMul | OMax | OMin | OAnd | OOr => Nat.leb 1 n
+  | OAdd | OCat | OMerge | OMissing | OIf | OTernary => true
   end.
